@@ -1,5 +1,6 @@
 import Replicon.Proofs.Client
 import Replicon.Props.C08
+import Replicon.Proofs.JointGhost
 /-
 C03 — Structural changes reach clients atomically and in server order.
 
@@ -8,7 +9,13 @@ both driven in lock step with the real apps on every generated trace (every sect
 update message and the client's whole replicated structure after every client frame are
 compared; 0 disagreements is the tie).
 
-What is proved here are the per-section facts the property rests on.  The end-to-end statement
+Server order over ALL histories (`C03_history_server_order`, on the joint model of
+`Model/Joint.lean`): after any history of operations and frames, the update message a frame
+sends a client carries a tick larger than that of every update message sent to that client
+before in its session; with `C03_tick_monotone` (the client never applies an older tick) the
+ordered channel therefore makes the client apply structural changes in server order.
+
+What else is proved here are the per-section facts the property rests on.  The end-to-end statement
 — "the client's structure equals the server's view at the client's update tick", i.e. that
 `applyUpdate` of the run's message turns the view of the previous update tick into the view of
 this tick for *every* reachable server state — is **not** proved as one theorem
@@ -74,5 +81,18 @@ example :
     let c' := applyUpdate c { tick := 4, despawns := [1], changes := [{ ent := 2, comps := [(1, 7)] }] }
     c'.s2c = [(2, 1)] ∧ c'.world = [(1, { marked := true, comps := [(1, 7)], hist := some 4 })] ∧ c'.updateTick = 4 := by
   decide
+
+/-- Server order, all histories: in the state any history of operations leads to, whatever the
+next frame is, an update message it sends client `c` has a tick larger than every update
+message sent to `c` before in its session (`sent c`), and is recorded as the newest one. -/
+theorem C03_history_server_order (ops : List Joint.Op) (ticked : Bool) (ms : Nat) (parts : Nat → List (List Nat))
+    (c : Nat) (o : ClientOut) (u : Update)
+    (hm : (c, o) ∈ (Joint.frame (Joint.run {} ops).1 ticked ms parts).2.1) (hu : o.update = some u) :
+    (∀ t ∈ (Joint.run {} ops).1.sent c, t < u.tick) ∧
+    (Joint.frame (Joint.run {} ops).1 ticked ms parts).1.sent c = (Joint.run {} ops).1.sent c ++ [u.tick] ∧
+    ((Joint.run {} ops).1.sent c).Pairwise (· < ·) := by
+  have inv := (Joint.inv_run ops {} Joint.inv_init).1
+  obtain ⟨h1, h2⟩ := Joint.frame_update_ghost _ ticked ms parts inv c o u hm hu
+  exact ⟨h2, h1, inv.incr c⟩
 
 end Replicon.C03
